@@ -222,11 +222,16 @@ PREDICATES = {
 
 
 def matches_finding(f, prop, hist):
-    """a recorded finding explains a violation of `prop` when the failing history has the finding's signature"""
+    """a recorded finding explains a violation of `prop` when the failing history has the finding's
+    signature and the failing step is one of the kinds of step at which the finding shows for that property"""
     if prop not in f["properties"]:
         return False
     pred = PREDICATES.get(f.get("signature", {}).get("predicate"))
-    return bool(pred and pred(hist))
+    if not (pred and pred(hist)):
+        return False
+    at = f.get("signature", {}).get("at", {}).get(prop)
+    last = hist["ops"][-1]["name"] if hist["ops"] else "reset"
+    return at is None or last in at
 
 
 def run_check(prop, tier, seed):
@@ -310,6 +315,8 @@ def run_check(prop, tier, seed):
             cov["transitions"] = sum(m.get("generated", 0) for m in mc)
         cov["model_checking"] = mc
         cov["exhaustive"] = bool(mc) and all(m.get("complete") for m in mc if not m.get("config", "").startswith("sim"))
+        cov["exhaustive_scope"] = ("the bounded TLC configurations under model_checking and the S4 searches of the implementation "
+                                   "(trace_sources.exhaustive_search) ran to completion; the sources S1-S3 are samples")
         cov["traces_validated_against_impl"] = hist_count
         cov["evaluations"] = nlines + extra.get("evaluations", 0)
         cov["distinct_nontrivial"] = len(nontrivial) + extra.get("distinct_nontrivial", 0)
